@@ -113,9 +113,11 @@ def _extract_targets():
     return res
 
 
-def _build_bins(force=False):
+def _build_bins(force=False, only=None):
     os.makedirs(BIN, exist_ok=True)
     for name, vf in _extract_targets():
+        if only is not None and name not in only:
+            continue
         d = os.path.join(COQ, "extract", name)
         ml = os.path.join(d, "model.ml")
         exe = os.path.join(BIN, name)
@@ -136,11 +138,88 @@ def _build_bins(force=False):
             raise BuildError("ocaml build of %s failed:\n%s" % (name, out))
 
 
+# ---------------------------------------------------------------- files regenerated from /repo's current source
+# (target file under theories/, module, function returning the text, exception class name).  EVERY check regenerates
+# ALL of them before it builds anything, so that a stale translation left behind by an earlier run against a
+# different source tree can never leak into this run.  When a translator rejects the current source, the target is
+# restored from coq/gen_baseline/ (the translation of the pinned source, committed), so that checks which do not
+# own that translator still build; the owning check reports the rejection itself.
+GENERATED = [
+    ("GenPath.v", "harness.translator", "generate_current"),
+    ("GenSched.v", "harness.c17_translator", "translate_current"),
+    ("GenNotify.v", "harness.c10_translator", "translate_current"),
+]
+GEN_BASELINE = os.path.join(COQ, "gen_baseline")
+
+
+def regen_all():
+    """-> {target: 'unchanged' | 'regenerated' | 'rejected: <why>'}"""
+    import importlib
+    # the translators read the source of the tree under test: /repo (or CLOUDSYNC_REPO), never the copy of the
+    # package that is installed in the interpreter's site-packages (./check pins PYTHONPATH; setup_cmd does not)
+    repo = os.environ.get("CLOUDSYNC_REPO") or "/repo"
+    for pth in (VERIF, repo):
+        if pth not in sys.path:
+            sys.path.insert(0, pth)
+    if repo in sys.path and sys.path.index(repo) > 0:
+        sys.path.remove(repo)
+        sys.path.insert(0, repo)
+    mod_cs = sys.modules.get("cloudsync")
+    if mod_cs is not None and not os.path.abspath(getattr(mod_cs, "__file__", "")).startswith(os.path.abspath(repo) + os.sep):
+        raise BuildError("cloudsync was imported from %s, not from %s" % (getattr(mod_cs, "__file__", "?"), repo))
+    out = {}
+    for target, modname, fn in GENERATED:
+        path = os.path.join(THEORIES, target)
+        try:
+            mod = importlib.import_module(modname)
+            text = getattr(mod, fn)()
+            status = None
+        except Exception as e:      # fail-closed translators raise on anything outside their whitelist
+            base = os.path.join(GEN_BASELINE, target)
+            text = open(base, encoding="utf-8").read() if os.path.exists(base) else None
+            status = "rejected: %s: %s" % (type(e).__name__, str(e)[:300])
+        if text is not None:
+            old = open(path, encoding="utf-8").read() if os.path.exists(path) else None
+            if old != text:
+                with open(path, "w", encoding="utf-8") as f:
+                    f.write(text)
+                status = status or "regenerated"
+        out[target] = status or "unchanged"
+    return out
+
+
+def _make(targets, jobs, timeout):
+    rc, out = _run(["make", "-j%d" % jobs] + targets, timeout)
+    if rc:
+        raise BuildError("make %s failed (rc=%d):\n%s" % (" ".join(targets) or "(all)", rc, out[-6000:]))
+
+
+def ensure_scope(vo_names, bins=(), jobs=16, timeout=1500):
+    """Incremental build of exactly the dependency closures of theories/<name>.vo for the given names and of the
+    named model executables — what ONE check needs.  A file outside those closures that does not compile (e.g. the
+    equality proof over another property's regenerated definitions) does not concern this check."""
+    with _Lock():
+        regen_all()
+        ex = dict(_extract_targets())
+        for name in bins:
+            if name not in ex:
+                raise BuildError("no Extract*.v produces the model executable %r" % name)
+            os.makedirs(os.path.join(COQ, "extract", name), exist_ok=True)
+        _write_project()
+        targets = ["theories/%s.vo" % n for n in vo_names]
+        targets += ["theories/%s.vo" % os.path.splitext(os.path.basename(ex[n]))[0] for n in bins]
+        if targets:
+            _make(targets, jobs, timeout)
+        _build_bins(only=set(bins))
+    return True
+
+
 def ensure(jobs=16, timeout=1500):
     """Incremental full .vo build + model executables.  Raises BuildError with the log."""
     with _Lock():
         for name, _ in _extract_targets():
             os.makedirs(os.path.join(COQ, "extract", name), exist_ok=True)
+        regen_all()
         _write_project()
         rc, out = _run(["make", "-j%d" % jobs], timeout)
         if rc:
